@@ -473,7 +473,7 @@ def run(tier, seed):
     orc = common.build_oracle("parent", ["parent_model"])
     phase("build driver+oracle")
     rng = random.Random(seed)
-    n_random = 2400 if tier == "quick" else 60000
+    n_random = 2000 if tier == "quick" else 40000
     if not proved:
         n_random *= 3
     kfs = findings()
@@ -571,8 +571,8 @@ def run(tier, seed):
 
     phase("compare")
     # --- 3. vm_compute slice: the extracted oracle equals the model evaluated inside Coq -------------------------
-    small = [c for c in ok_cases if c[3] <= 60]      # printing long lists of N dominates the cost inside coqc
-    sl = rng.sample(small, min(120, len(small)))
+    small = [c for c in ok_cases if c[3] <= 45]      # printing long lists of N dominates the cost inside coqc
+    sl = rng.sample(small, min(100 if tier == "quick" else 200, len(small)))
     if sl:
         vm = common.vm_compute_slice(PROP, PREAMBLE, ["answers_flat %s %s" % ("true" if fx else "false", coq_term(c[1])) for c in sl])
         bad = [(c[0], v, c[2]) for c, v in zip(sl, vm) if v != c[2]]
